@@ -32,7 +32,8 @@ ANCHORS = {
             'correctors.JWSTWCSCorrector.det_to_tanp', 'correctors.JWSTWCSCorrector.tanp_to_det',
             'correctors.JWSTWCSCorrector.world_to_tanp', 'correctors.JWSTWCSCorrector.tanp_to_world',
             'correctors.JWSTWCSCorrector._update_transformations',
-            'correctors.JWSTWCSCorrector._v2v3_to_tpcorr_from_full'],
+            'correctors.JWSTWCSCorrector._v2v3_to_tpcorr_from_full',
+            'correctors.JWSTWCSCorrector._tpcorr_init', 'correctors.JWSTWCSCorrector._tpcorr_combine_affines'],
     'C04': ['correctors.JWSTWCSCorrector._tpcorr_combine_affines', 'correctors.JWSTWCSCorrector.set_correction',
             'correctors.JWSTWCSCorrector.__init__', 'correctors.JWSTWCSCorrector._check_wcs_structure',
             'correctors.WCSCorrector.__init__', 'correctors.WCSCorrector.copy',
